@@ -1698,6 +1698,11 @@ def run(rep, repo, tier):
   rule_graph_construction(rep, repo)
   rep.require_instances("R9", 10)
   rule_json_report(rep, repo)
+  # the input types the map is built from follow the quantizer objects as
+  # they are when the map is generated (shared with C16 R13)
+  from .c16 import rule_conversion_follows_object
+  if rule_conversion_follows_object(rep, repo, rule="R11") < 8:
+    raise AnalysisError("instance-count conversion sequences")
   rep.require_instances("R10", 40)
   rep.require_instances("R6", 25)
   rep.require_instances("R4", 14)
